@@ -157,6 +157,9 @@ func VerifSpotlightPlay(cfgText string, epochNs int64, items []VerifC08Item) (re
 		st:      makeCollectorState(cfg),
 		logger:  log.NewSecondaryLogger(ctx, nil, "collector", true, false),
 	}
+	defer log.VerifRelease(spm.logger)
+	defer log.VerifRelease(au.logger)
+	defer log.VerifRelease(col.logger)
 	of := newOutputFiles()
 
 	res.Parsers = make(map[string][]VerifC08Parser)
